@@ -72,6 +72,8 @@ def _judge(files, res, v, cov, measured=None):
                 raise vlib.Infra("trace validation gave no verdict:\n" + r["out"][-3000:])
             i = r["hw"] - 1
             bad = ev[i] if i < len(ev) else {}
+            if -1 in (bad.get("rfds"), bad.get("wfds")) and bad.get("cls") != "emfile":
+                raise vlib.Infra("the harness could not list /proc/self/fd: " + vlib.explain_rejection(f, r["hw"]))
             key = "tv-%s-%s" % (bad.get("e"), bad.get("cls") or bad.get("res", ""))
             run = vlib.run_of(ev, min(i, len(ev) - 1))
             limit = str(run[0].get("kind", "")).startswith("limit")
@@ -80,6 +82,8 @@ def _judge(files, res, v, cov, measured=None):
                 key = "writer-entry-fd-leak"
             elif bad.get("cls") == "emfile" and bad.get("e") == "scan":
                 key = "scan-dir-fd-leak"
+            elif bad.get("cls") == "emfile" and bad.get("e") == "rd" and limit:
+                key = "reader-entry-fd-leak"
             txt = "recorded archive execution is not a behaviour of Archive: "
             if limit:
                 txt = "with RLIMIT_NOFILE=64 a tree of %s entries is not transferred (%s)" % (run[0].get("entries"), bad.get("msg") or bad.get("cls"))
@@ -106,7 +110,7 @@ def _judge(files, res, v, cov, measured=None):
     scan = None
     for f, r in zip(files, res):
         fx = _fdx(r["out"])
-        if fx and fx[4] > 0 and r["hw"] is None:
+        if fx and fx[4] > 0 and fx[5] > 0:
             ev = vlib.read_ndjson(f)
             run = vlib.run_of(ev, fx[5] - 1)
             if scan is None or fx[4] > scan["max"]:
@@ -133,10 +137,16 @@ def _judge(files, res, v, cov, measured=None):
     return nrej
 
 
-def _selftests(files, cov):
+def _selftests(files, res, cov):
     """Binding demonstration: corrupted / shortened traces must be rejected at the corrupted line,
-    a descriptor excess must be flagged without stopping the validation."""
-    ev = vlib.read_ndjson(files[0])
+    a descriptor excess must be flagged without stopping the validation.  Needs a recorded trace
+    that is itself a behaviour of the spec; when the code under test diverges everywhere (the
+    verdict is exit 1 then anyway) the demonstration is skipped and recorded as such."""
+    good = [f for f, r in zip(files, res) if _structure_ok(r)]
+    if not good:
+        cov["selftests"] = "skipped: no recorded trace file was accepted"
+        return
+    ev = vlib.read_ndjson(good[0])
     # a slice of complete runs that contains reads, short writes and a treediff
     resets = [i for i, e in enumerate(ev) if e.get("e") == "reset"]
     hi = resets[6] if len(resets) > 6 else len(ev)
@@ -145,25 +155,36 @@ def _selftests(files, cov):
     os.makedirs(d, exist_ok=True)
 
     def first(pred):
-        return next(i for i, e in enumerate(ev) if pred(e))
+        return next((i for i, e in enumerate(ev) if pred(e)), None)
+
+    def change(i, **kw):
+        return [dict(e, **kw) if k == i else e for k, e in enumerate(ev)]
 
     muts = {}
     i = first(lambda e: e.get("e") == "rd" and e.get("res") == "ok" and e.get("got", 0) > 1)
-    muts["rd_got_minus1"] = (i, [dict(e, got=e["got"] - 1) if k == i else e for k, e in enumerate(ev)])
+    if i is not None:
+        muts["rd_got_minus1"] = (i, change(i, got=ev[i]["got"] - 1))
     i = first(lambda e: e.get("e") == "wr" and e.get("c", 0) < e.get("len", 0))
-    muts["wr_short_as_full"] = (i, [dict(e, c=e["len"]) if k == i else e for k, e in enumerate(ev)])
+    if i is not None:
+        muts["wr_short_as_full"] = (i, change(i, c=ev[i]["len"]))
     i = first(lambda e: e.get("e") == "wr")
-    muts["wr_dropped"] = (i, ev[:i] + ev[i + 1:])
+    if i is not None:
+        muts["wr_dropped"] = (i, ev[:i] + ev[i + 1:])
+        muts["wfds_excess"] = ("fdx", change(i, wfds=ev[i]["wfds"] + 7))
     i = first(lambda e: e.get("e") == "newreader")
-    muts["announced_minus1"] = (i, [dict(e, announced=e["announced"] - 1) if k == i else e for k, e in enumerate(ev)])
+    if i is not None:
+        muts["announced_minus1"] = (i, change(i, announced=ev[i]["announced"] - 1))
     i = first(lambda e: e.get("e") == "treediff")
-    muts["treediff_sha"] = (i, [dict(e, sha=1) if k == i else e for k, e in enumerate(ev)])
+    if i is not None:
+        muts["treediff_sha"] = (i, change(i, sha=1))
     i = first(lambda e: e.get("e") == "entry" and not e.get("dir") and e.get("size", 0) > 0)
-    muts["entry_size_plus1"] = (None, [dict(e, size=e["size"] + 1) if k == i else e for k, e in enumerate(ev)])
+    if i is not None:
+        muts["entry_size_plus1"] = (None, change(i, size=ev[i]["size"] + 1))
     i = first(lambda e: e.get("e") == "rd" and e.get("rfds", 0) > 0)
-    muts["rfds_below_spec"] = (i, [dict(e, rfds=0) if k == i else e for k, e in enumerate(ev)])
-    i = first(lambda e: e.get("e") == "wr")
-    muts["wfds_excess"] = ("fdx", [dict(e, wfds=e["wfds"] + 7) if k == i else e for k, e in enumerate(ev)])
+    if i is not None:
+        muts["rfds_below_spec"] = (i, change(i, rfds=0))
+    if len(muts) < 6:
+        raise vlib.Infra("self-test: the recorded slice lacks the events to corrupt (%s)" % sorted(muts))
     names = sorted(muts)
     paths = []
     for n in names:
@@ -300,7 +321,7 @@ def run(tier, v):
     cov["descriptor_measurements"] = measured
     ev0 = vlib.read_ndjson(files[0])
     cov["samples"].append({"recorded_run": vlib.run_of(ev0, 0)[:16]})
-    _selftests(files, cov)
+    _selftests(files, res, cov)
     phase("selftests")
     return cov
 
